@@ -155,7 +155,7 @@ def register(I):
         a[0].set(a[0].get() + deref_all(a[1]))
         return UNIT
 
-    @pat(r"^<str as std::ops::Index<.*>>::index$", r"^<std::string::String as std::ops::Index<.*>>::index$",
+    @pat(r"^<str as std::ops::Index>::index$", r"^<std::string::String as std::ops::Index>::index$",
          r"^std::str::traits::<impl std::ops::Index<.*> for str>::index$")
     def _s_index(I, a, cc):
         s = deref_all(a[0]).encode("utf-8")
@@ -168,12 +168,12 @@ def register(I):
         a[0].set(a[0].get() + a[1])
         return ok(UNIT)
 
-    @pat(r"^<std::string::String as std::iter::FromIterator<.*>>::from_iter$")
+    @pat(r"^<std::string::String as std::iter::FromIterator>::from_iter$")
     def _s_from_iter(I, a, cc):
         it = get_iter(a[0])
         return "".join(x.c if isinstance(x, Char) else deref_all(x) for x in it.rest())
 
-    @pat(r"^<std::string::String as std::iter::Extend<.*>>::extend$")
+    @pat(r"^<std::string::String as std::iter::Extend>::extend$")
     def _s_extend(I, a, cc):
         it = get_iter(a[1])
         a[0].set(a[0].get() + "".join(x.c if isinstance(x, Char) else deref_all(x) for x in it.rest()))
@@ -264,7 +264,7 @@ def register(I):
         deref(a[0]).a.extend(clone_value(x) for x in arr[lo:hi])
         return UNIT
 
-    @pat(r"^<std::vec::Vec as std::iter::Extend<.*>>::extend$")
+    @pat(r"^<std::vec::Vec as std::iter::Extend>::extend$")
     def _v_extend(I, a, cc):
         it = iter_of(I, a[1], cc)
         dst = deref(a[0]).a
@@ -378,8 +378,8 @@ def register(I):
         arr[lo:hi] = items
         return UNIT
 
-    @pat(r"^<std::vec::Vec as std::ops::Index<.*>>::index$", r"^<std::vec::Vec as std::ops::IndexMut<.*>>::index_mut$",
-         r"^<\[T\] as std::ops::Index<.*>>::index$", r"^std::slice::index::<impl std::ops::Index<.*> for \[T\]>::index$",
+    @pat(r"^<std::vec::Vec as std::ops::Index>::index$", r"^<std::vec::Vec as std::ops::IndexMut>::index_mut$",
+         r"^<\[T\] as std::ops::Index>::index$", r"^std::slice::index::<impl std::ops::Index<.*> for \[T\]>::index$",
          r"^std::slice::index::<impl std::ops::IndexMut<.*> for \[T\]>::index_mut$")
     def _v_index(I, a, cc):
         arr, lo, hi = as_list(a[0])
@@ -391,7 +391,7 @@ def register(I):
         l2, h2 = _range_bounds(i, hi - lo)
         return SliceV(arr, lo + l2, lo + h2)
 
-    @pat(r"^<std::vec::Vec as std::iter::FromIterator<.*>>::from_iter$")
+    @pat(r"^<std::vec::Vec as std::iter::FromIterator>::from_iter$")
     def _v_from_iter(I, a, cc):
         return VecV(iter_of(I, a[0], cc).rest())
 
@@ -448,6 +448,14 @@ def register(I):
             if is_sym(lo) or is_sym(hi):
                 raise Unsupported("symbolic range iteration")
             return IterV(range(lo, hi + (1 if x.ty == "RangeInclusive" else 0)))
+        if isinstance(x, Agg) and x.ty:
+            it = None
+            if by_ref:
+                it = I.p.find_impl("&" + x.ty, "IntoIterator", "into_iter")
+            if it is None and not by_ref:
+                it = I.p.find_impl(x.ty, "IntoIterator", "into_iter")
+            if it is not None:
+                return get_iter(I.run_item(it, [v], None))
         raise Unsupported("into_iter of %r" % (x,))
 
     I.iter_of = iter_of
@@ -870,7 +878,7 @@ def register(I):
     def _m_extend_inh(I, a, cc):
         return _m_extend(I, a, cc)
 
-    @pat(r"^<(std::collections::(HashMap|BTreeMap|HashSet|BTreeSet)|serde_json::Map) as std::iter::Extend<.*>>::extend$")
+    @pat(r"^<(std::collections::(HashMap|BTreeMap|HashSet|BTreeSet)|serde_json::Map) as std::iter::Extend>::extend$")
     def _m_extend(I, a, cc):
         m = deref(a[0])
         src = a[1]
@@ -900,12 +908,12 @@ def register(I):
         o.d.clear()
         return UNIT
 
-    @pat(r"^<(std::collections::(HashMap|BTreeMap|HashSet|BTreeSet)|serde_json::Map) as std::iter::FromIterator<.*>>::from_iter$")
+    @pat(r"^<(std::collections::(HashMap|BTreeMap|HashSet|BTreeSet)|serde_json::Map) as std::iter::FromIterator>::from_iter$")
     def _m_from_iter(I, a, cc):
         t = cc.self_ty()
         return collect_into(I, iter_of(I, a[0], cc).rest(), t, cc)
 
-    @pat(r"^<(std::collections::(HashMap|BTreeMap)|serde_json::Map) as std::ops::Index<.*>>::index$")
+    @pat(r"^<(std::collections::(HashMap|BTreeMap)|serde_json::Map) as std::ops::Index>::index$")
     def _m_index(I, a, cc):
         m = deref(a[0])
         kb = m.d.get(key_of(I, a[1]))
@@ -1001,7 +1009,7 @@ def register(I):
         return Agg("RangeInclusive", [a[0], a[1]])
 
     # usize helpers
-    @intr("core::num::<impl usize>::div_ceil", "core::num::<impl u64>::div_ceil", "core::num::<impl u32>::div_ceil")
+    @intr("std::num::<impl usize>::div_ceil", "std::num::<impl u64>::div_ceil", "std::num::<impl u32>::div_ceil")
     def _div_ceil(I, a, cc):
         x, y = a
         if is_sym(x) or is_sym(y):
@@ -1012,7 +1020,7 @@ def register(I):
             raise RustPanic("attempt to divide by zero")
         return -(-x // y)
 
-    @pat(r"^core::num::<impl (i|u)\w+>::(abs|pow|checked_add|checked_sub|checked_mul|saturating_sub|saturating_add|wrapping_add|wrapping_sub|min|max)$")
+    @pat(r"^std::num::<impl (i|u)\w+>::(abs|pow|checked_add|checked_sub|checked_mul|saturating_sub|saturating_add|wrapping_add|wrapping_sub|min|max)$")
     def _num(I, a, cc):
         op = cc.norm.split("::")[-1]
         ty = re.search(r"impl (\w+)>", cc.norm).group(1)
